@@ -17,6 +17,7 @@ and proved here under an explicit decidable exclusion (`…_partial`).
 import CaddyModel.C11.Lemmas
 import CaddyModel.C11.Witness
 import CaddyModel.C11.CaddyfileProps
+import CaddyModel.C11.NamesProps
 
 namespace CaddyModel.C11
 
@@ -139,6 +140,57 @@ example : 1 ∈ certsOf wildCfg wildP Orders.id ∧ wildP.pub 1 = false ∧ expl
     policiesOf wildCfg wildP Orders.id =
       [⟨[1, 2], [Issuer.internal], 0⟩, ⟨[3], [Issuer.acme], 0⟩, ⟨[], [Issuer.acme], 0⟩] ∧
     policyFor wildP 1 (policiesOf wildCfg wildP Orders.id) = some ⟨[1, 2], [Issuer.internal], 0⟩ := by decide
+
+/-- **internal issuer, with certmagic's real predicates**: the same statement for the
+    parameters computed from the name STRINGS by the byte-level models of `Names.lean`
+    (`SubjectQualifiesForPublicCert`, `MatchWildcard`, `isTailscaleDomain`, …) — the two
+    hypotheses about certmagic are now theorems over all byte strings
+    (`matchWildcard_refl`, `tailscale_pattern_matches_tailscale_only`).  What remains a
+    parameter: the loaded-certificate lookup and the HTTP host matcher (neither is used here). -/
+theorem internal_issuer_for_nonpublic_real (c : Config) (names : List Bytes) (loaded : Name → Bool)
+    (hm : Name → Name → Bool) (π : Orders) (d : Name) (hlt : d < names.length)
+    (hd : d ∈ certsOf c (realParams names loaded hm) π)
+    (hpub : qualifiesForPublic names[d] = false) (hexp : explicitPolicy c d = false) :
+    ∃ p, policyFor (realParams names loaded hm) d (policiesOf c (realParams names loaded hm) π) = some p ∧
+      p.issuers = [Issuer.internal] ∧ d ∈ p.subjects := by
+  have hget : names[d]? = some names[d] := by simp [hlt]
+  have htsd : (realParams names loaded hm).ts d = false := by
+    have := ((mem_certsOf c _ π d).mp hd).2
+    cases h : (realParams names loaded hm).ts d with
+    | false => rfl
+    | true => exact absurd ⟨hexp, h⟩ this
+  apply internal_issuer_for_nonpublic c _ π d hd
+  · simp [realParams, hget, hpub]
+  · exact hexp
+  · exact realParams_mw_refl names loaded hm d hlt
+  · intro o hto
+    cases hmw : (realParams names loaded hm).mw d o with
+    | false => rfl
+    | true =>
+      exfalso
+      simp only [realParams, hget] at hmw hto htsd
+      cases ho : names[o]? with
+      | none => simp [ho] at hmw
+      | some t =>
+        simp only [ho] at hmw hto
+        have := tailscale_pattern_matches_tailscale_only names[d] t hmw hto
+        rw [this] at htsd; cases htsd
+
+example : qualifiesForPublic (str "wiki.h.internal") = false ∧ matchWildcard (str "wiki.h.internal") (str "*.h.internal") = true ∧
+    isTailscale (str "wiki.h.internal") = false := by decide
+
+/-- **what a server contributes depends on that server alone**: if server `s` makes `d`
+    qualify in one configuration, `d` qualifies in every configuration with the same HTTP port
+    that contains `s` — whatever the other servers and THEIR skip lists are (the seeded change
+    `C11-skip-set-shared-across-servers` shares one skip set between the servers) -/
+theorem skip_is_per_server (c c' : Config) (P : Params) (s : Server) (d : Name)
+    (hport : httpPort c = httpPort c') (hs' : s ∈ c'.servers) (h : qualifiesOn c P s d = true) :
+    qualifies c' P d = true := by
+  simp only [qualifies, List.any_eq_true]
+  refine ⟨s, hs', ?_⟩
+  simpa [qualifiesOn, active, hport] using h
+
+example : qualifiesOn exCfg exP ⟨[exTcp 8443], false, false, false, false, 0, [], [], [⟨[[1, 2]]⟩, ⟨[[3]]⟩]⟩ 1 = true := by decide
 
 /-! ### servers confined to the HTTP port (or disabled) -/
 
